@@ -86,53 +86,126 @@ c17_clamp_float!(ty: f64, wrappers: wc_f64,
 
 // ---- experiments
 fn tol32(v: f32, u: f32) -> f32 { (if v.abs() > u { v.abs() } else { u }) * (1.0 / 2097152.0) + 5.6e-45 }
+fn few_bits(u: f32) -> bool { u.to_bits() & 0x000F_FFFF == 0 }
 #[kani::proof]
-fn c17_y_wrapped_f32_range_tol() {
+fn c17_z_wrapped_f32_fewbits() {
     let v: f32 = kani::any(); let u: f32 = kani::any();
-    kani::assume(v.abs() <= 1e38 && u <= 1e38 && u > 0.0 && (v / u).is_finite());
+    kani::assume(v.abs() <= 1e38 && u <= 1e38 && u > 0.0 && few_bits(u) && (v / u).is_finite());
     let r = v.wrapped(u);
     let tol = tol32(v, u);
     assert!(!r.is_nan());
     assert!(-tol <= r && r <= u + tol);
 }
 #[kani::proof]
-fn c17_y_pingpong_f32_range_tol() {
+fn c17_z_wrapped_f32_fewbits_congruent() {
     let v: f32 = kani::any(); let u: f32 = kani::any();
-    kani::assume(v.abs() <= 1e38 && u <= 5e37 && u > 0.0 && (v / (u + u)).is_finite());
+    kani::assume(v.abs() <= 1e38 && u <= 1e38 && u > 0.0 && few_bits(u) && (v / u).abs() <= 16777216.0);
+    let r = v.wrapped(u);
+    let k = (v / u).floor();
+    let e = v as f64 - k as f64 * u as f64 - r as f64;
+    assert!(e.abs() <= tol32(v, u) as f64);
+}
+#[kani::proof]
+fn c17_z_pingpong_f32_fewbits() {
+    let v: f32 = kani::any(); let u: f32 = kani::any();
+    kani::assume(v.abs() <= 1e38 && u <= 5e37 && u > 0.0 && few_bits(u) && (v / (u + u)).is_finite());
     let r = v.pingpong(u);
     let tol = tol32(v, u);
     assert!(!r.is_nan());
     assert!(-tol <= r && r <= u);
 }
 #[kani::proof]
-fn c17_y_wrapped_between_f32_range_tol() {
+fn c17_z_wrapped_between_f32_fewbits() {
     let v: f32 = kani::any(); let lo: f32 = kani::any(); let hi: f32 = kani::any();
-    kani::assume(v.abs() <= 1e37 && 0.0 <= lo && lo < hi && hi <= 1e37 && ((v - lo) / (hi - lo)).is_finite());
+    kani::assume(v.abs() <= 1e37 && 0.0 <= lo && lo < hi && hi <= 1e37 && few_bits(lo) && few_bits(hi) && ((v - lo) / (hi - lo)).is_finite());
     let r = v.wrapped_between(lo, hi);
     let tol = tol32(v, hi);
     assert!(!r.is_nan());
     assert!(lo - tol <= r && r <= hi + tol);
 }
 #[kani::proof]
-fn c17_y_delta_angle_f32() {
+fn c17_z_delta_angle_f32_1024() {
     let s: f32 = kani::any(); let t: f32 = kani::any();
-    kani::assume(s.abs() <= 65536.0 && t.abs() <= 65536.0);
+    kani::assume(s.abs() <= 1024.0 && t.abs() <= 1024.0);
     let r = s.delta_angle(t);
     assert!(-core::f32::consts::PI < r && r <= core::f32::consts::PI);
 }
 #[kani::proof]
-fn c17_y_wrapped_2pi_f32() {
+fn c17_z_delta_angle_degrees_f32_congruent() {
+    let s: f32 = kani::any(); let t: f32 = kani::any();
+    kani::assume(s.abs() <= 65536.0 && t.abs() <= 65536.0);
+    let r = s.delta_angle_degrees(t);
+    let d = t - s;
+    let k = (d / 360.0).floor();
+    let e = d as f64 - k as f64 * 360.0 - r as f64;
+    let tol = tol32(d, 360.0) as f64;
+    assert!(e.abs() <= tol || (e - 360.0).abs() <= tol);
+}
+#[kani::proof]
+fn c17_z_wrapped_2pi_f32_1024() {
     let v: f32 = kani::any();
-    kani::assume(v.abs() <= 1e38);
+    kani::assume(v.abs() <= 1024.0);
     let r = v.wrapped_2pi();
     let tol = tol32(v, core::f32::consts::TAU);
     assert!(-tol <= r && r <= core::f32::consts::TAU + tol);
 }
 #[kani::proof]
-fn c17_y_wrapped_2pi_f32_small() {
+fn c17_q_wrapped_f32_symbolic_small() {
+    let v: f32 = kani::any(); let u: f32 = kani::any();
+    kani::assume(v.abs() <= 64.0 && 1.0 <= u && u <= 64.0);
+    let r = v.wrapped(u);
+    let tol = tol32(v, u);
+    assert!(-tol <= r && r <= u + tol);
+}
+#[kani::proof]
+fn c17_q_wrapped_2pi_f32_congruent_1024() {
     let v: f32 = kani::any();
-    kani::assume(v.abs() <= 65536.0);
+    kani::assume(v.abs() <= 1024.0);
     let r = v.wrapped_2pi();
-    let tol = tol32(v, core::f32::consts::TAU);
-    assert!(-tol <= r && r <= core::f32::consts::TAU + tol);
+    let k = (v / core::f32::consts::TAU).floor();
+    let e = v as f64 - k as f64 * core::f32::consts::TAU as f64 - r as f64;
+    assert!(e.abs() <= tol32(v, core::f32::consts::TAU) as f64);
+}
+#[kani::proof]
+fn c17_q_delta_angle_f32_congruent_1024() {
+    let s: f32 = kani::any(); let t: f32 = kani::any();
+    kani::assume(s.abs() <= 1024.0 && t.abs() <= 1024.0);
+    let r = s.delta_angle(t);
+    let d = t - s;
+    let tau = core::f32::consts::TAU;
+    let k = (d / tau).floor();
+    let e = d as f64 - k as f64 * tau as f64 - r as f64;
+    let tol = tol32(d, tau) as f64;
+    assert!(e.abs() <= tol || (e - tau as f64).abs() <= tol);
+}
+#[kani::proof]
+fn c17_q_delta_angle_degrees_f32_1024() {
+    let s: f32 = kani::any(); let t: f32 = kani::any();
+    kani::assume(s.abs() <= 1024.0 && t.abs() <= 1024.0);
+    let r = s.delta_angle_degrees(t);
+    assert!(-180.0 < r && r <= 180.0);
+}
+#[kani::proof]
+#[kani::should_panic]
+fn c17_q_wrapped_f32_panics() {
+    let v: f32 = kani::any(); let u: f32 = kani::any();
+    kani::assume(!(u > 0.0));
+    let _ = v.wrapped(u);
+    must_be_unreachable();
+}
+#[kani::proof]
+#[kani::should_panic]
+fn c17_q_wrapped_between_f32_panics() {
+    let v: f32 = kani::any(); let lo: f32 = kani::any(); let hi: f32 = kani::any();
+    kani::assume(!(lo < hi && lo >= 0.0));
+    let _ = v.wrapped_between(lo, hi);
+    must_be_unreachable();
+}
+#[kani::proof]
+#[kani::should_panic]
+fn c17_q_pingpong_f32_panics() {
+    let v: f32 = kani::any(); let u: f32 = kani::any();
+    kani::assume(!(u > 0.0));
+    let _ = v.pingpong(u);
+    must_be_unreachable();
 }
